@@ -1,11 +1,12 @@
 SPECIFICATION Spec
 CONSTANTS
-  Kinds = {"registrant", "EOF", "closed", "EPIPE", "RST", "REFUSED", "ABORTED", "HOSTUNREACH", "timeout", "ETIMEDOUT", "NETUNREACH", "NETDOWN", "NOBUFS", "NOTCONN", "EINVAL", "EIO", "other"}
-  Wraps = {"field", "op", "oploc", "sys", "bare", "fmt"}
+  Kinds = {"registrant", "EOF", "closed", "EPIPE", "RST", "REFUSED", "ABORTED", "HOSTUNREACH", "timeout", "ETIMEDOUT", "NETUNREACH", "NETDOWN", "NOBUFS", "NOTCONN", "EINVAL", "EIO", "other", "EMFILE", "lookup"}
+  Wraps = {"field", "op", "oploc", "sys", "bare", "fmt", "names-ip"}
   Fams = {"v4", "v6", "v4mapped"}
   LogIPs = {TRUE, FALSE}
   Sanitizer = "intended"
   RawDeadlineLog = FALSE
+  RawSites = {}
   IngestPrintsRegistrant = {}
 INVARIANT Emitted
 CHECK_DEADLOCK FALSE
